@@ -216,6 +216,23 @@ pub fn gen_scenario(r: &mut Rng, small: bool) -> Scenario {
             10,
             Box::new(ExprSpec::Val(ValSpec::Int(Some(7)))),
         ))));
+        // ... and values of the optional value-type features (their rendering code is only
+        // reached through them)
+        for v in [
+            ValSpec::ChronoDateTime(Some(1_577_934_245)),
+            ValSpec::Json(Some("{\"k\":[1,2]}".into())),
+            ValSpec::Uuid(Some((0x1234_5678_9abc_def0, 0x0fed_cba9_8765_4321))),
+            ValSpec::Decimal(Some((31415, 4))),
+            ValSpec::Array(Some(vec![1, 2])),
+        ] {
+            if r.pct(60) {
+                base.ops.push(Op::Cond(CondOp::AndWhere(ExprSpec::Bin(
+                    Box::new(ExprSpec::Col(ColRefSpec::Col(a("v")))),
+                    10,
+                    Box::new(ExprSpec::Val(v)),
+                ))));
+            }
+        }
     }
     let hi = if small { 2 } else { 5 };
     // the small (Miri) mix favours scenarios in which several threads render shared structure
@@ -250,11 +267,16 @@ pub fn gen_scenario(r: &mut Rng, small: bool) -> Scenario {
                 .enumerate()
                 .map(|(ri, _)| {
                     (0..r.range(1, 3))
-                        .map(|_| {
+                        .enumerate()
+                        .map(|(k, _)| {
                             let mut o = gen_obs(r);
                             if small {
-                                // concurrent readers on different backends
+                                // concurrent readers on different backends, each starting with
+                                // the inline (to_string) path so that first uses coincide
                                 o.backend = BACKENDS[ri % 3];
+                                if k == 0 && r.pct(70) {
+                                    o.entry = Entry::ToString;
+                                }
                             }
                             o
                         })
